@@ -6,4 +6,5 @@ export CARGO_NET_OFFLINE=true
 MODS=$(python3 -c "import json;print(' '.join(sorted({v['module'] for v in json.load(open('lean/obligations.json')).values()})))")
 (cd lean && lake build $MODS rbpf_model)
 (cd harness && RUSTFLAGS="--cfg rbpf_verif" cargo build --release --offline)
+(cd harness_nostd && RUSTFLAGS="--cfg rbpf_verif" cargo build --release --offline)
 echo "setup done"
